@@ -268,6 +268,18 @@ func c12Time(w *run.Worker) {
 			}
 		}
 	}
+	// named zones with a summer date (daylight saving time in effect where the zone has it)
+	for _, b := range []string{"2021-07-15 12:00:00", "2021-03-28 01:30:00", "2021-10-31 01:30:00"} {
+		for _, z := range []string{"UTC", "Europe/London", "America/New_York", "Asia/Shanghai", "Asia/Kolkata", "Etc/GMT+5", "Local", "utc"} {
+			for _, sit := range []int{sitField, sitVar} {
+				if !w.Take() {
+					continue
+				}
+				z := z
+				run1(b, &z, sit)
+			}
+		}
+	}
 	for _, tx := range []any{int64(1600000000), int64(1600000000123), 2.5, nil} {
 		if w.Take() {
 			run1(tx, nil, sitField)
@@ -428,7 +440,7 @@ func init() {
 			"(2) 14 patterns (all capture types, convertible and inconvertible text, pattern capturing into its own subject) x trim_space {absent,true,false} x 6 subject situations x 14 subject values; " +
 			"(3) default_time on the 66 documented layouts + 6 house layouts + non-timestamps, 4 base timestamps x 21 zone arguments (fixed-offset labels, IANA names, invalid) x subject situations; datetime over 18 formats x 4 precisions x 13 epoch values x 3 situations; " +
 			"(4) xml: 9 documents x 13 XPath queries x 4 destination spellings x subject situations; (5) sql_cover: 20 strings x 5 situations; oracle: whole final point incl. time, probe trace (grok's boolean), load verdict",
-		Assumptions: []string{"grok, xmlquery/xpath, dateparse, time, obfuscate are the trusted engines, called directly by the reference", "zone labels are checked against fixed offsets for DST-free zones / winter dates; DST-in-January labels, CST/UTC labels, year-less layouts are unspecified cells", "the text of the failure note after the prefix `time convert failed` is not compared"},
+		Assumptions: []string{"grok, xmlquery/xpath, dateparse, time, obfuscate are the trusted engines, called directly by the reference", "zone labels are checked against fixed offsets for DST-free zones / winter dates; DST-in-January labels, the CST label and year-less layouts are unspecified cells; IANA names incl. UTC are also run with summer and DST-switch dates", "the text of the failure note after the prefix `time convert failed` is not compared"},
 		Run:            c12Run,
 		Replay:         c12Replay,
 		QuickBudget:    5 * time.Minute,
